@@ -18,6 +18,7 @@ CONSTANTS Sizes,      \* initial sizes; -1 = the file does not exist
           WCounts,    \* write counts
           SOffs,      \* seek offsets
           VBufs,      \* setvbuf modes
+          Extra,      \* names of the argument-less operations in the alphabet
           MaxHist, Naive, Gen
 
 B == INSTANCE ByteFile
@@ -33,8 +34,10 @@ Ops == {Op("open", m, 0) : m \in Modes}
        \cup {Op("write", "", n) : n \in WCounts}
        \cup {Op("seek", w, k) : w \in {"set", "cur", "end"}, k \in SOffs}
        \cup {Op("setvbuf", v, 0) : v \in VBufs}
-       \cup {Op("lines", "", 2), Op("readline", "", 0), Op("readall", "", 0), Op("readnum", "", 0),
-             Op("flush", "", 0), Op("close", "", 0), Op("peek", "", 0)}
+       \cup {Op("seek1", w, 0) : w \in IF "seek1" \in Extra THEN {"set", "cur", "end"} ELSE {}}
+       \cup {o \in {Op("seek0", "", 0), Op("getiter", "", 0), Op("calliter", "", 0),
+                    Op("lines", "", 2), Op("readline", "", 0), Op("readall", "", 0), Op("readnum", "", 0),
+                    Op("flush", "", 0), Op("close", "", 0), Op("peek", "", 0)} : o.op \in Extra}
 
 Init ==
     \E size \in Sizes, lay \in Lays :
@@ -74,7 +77,7 @@ ExpandRes(st0, e) ==
 Refines ==
     Naive =>
       /\ st.ex = nv.s.ex /\ st.opened = nv.s.opened /\ st.closed = nv.s.closed
-      /\ st.mode = nv.s.mode /\ st.cur = nv.s.cur
+      /\ st.mode = nv.s.mode /\ st.cur = nv.s.cur /\ st.it = nv.s.it
       /\ st.len = Len(nv.s.f)
       /\ Expand(st, Data(st, 0, st.len)[2]) = nv.s.f               \* same content
       /\ Len(hist) > 0 => ExpandRes(st, hist[Len(hist)].exp) = nv.res   \* same result
@@ -90,6 +93,7 @@ TypeOK ==
           /\ \A i \in DOMAIN s : s[i].k = "b" => s[i].x + s[i].n <= st.bl   \* base bytes only below bl
     /\ st.pend => (st.buf # "no" /\ st.opened /\ ~st.closed)
     /\ ~st.ex => (st.len = 0 /\ ~st.opened)
+    /\ st.it \in {"none", "cur", "old"} /\ (st.it # "none" => st.opened)
 
 (* closed-handle guard: every operation on a closed handle raises and leaves
    the file as it was; visibility: whatever was written is in the file that a
@@ -109,6 +113,10 @@ CursorLaws ==
             IN r.st.cur = st.cur + DataLen(r.exp) /\ DataLen(r.exp) <= n /\ r.st.cur <= IMax(st.cur, st.len)
                /\ (r.exp[1] = "eof" <=> st.cur >= st.len)
       /\ Apply(st, Op("seek", "cur", 0)).exp = <<"num", st.cur>>
+      /\ Apply(st, Op("seek0", "", 0)) = Apply(st, Op("seek", "cur", 0))      \* call forms with defaults
+      /\ \A w \in {"set", "cur", "end"} : Apply(st, Op("seek1", w, 0)) = Apply(st, Op("seek", w, 0))
+      /\ (st.it = "cur" /\ Readable(st.mode)) =>                            \* a kept iterator is read("*l")
+            Apply(st, Op("calliter", "", 0)) = Apply(st, Op("readline", "", 0))
       /\ Writable(st.mode) => \A n \in WCounts \ {0} :
             LET r == Apply(st, Op("write", "", n)).st
                 p == IF AppendM(st.mode) THEN st.len ELSE st.cur
@@ -128,6 +136,7 @@ MC_ModesSizes == {-1, 0, 1, 4097}
 MC_ModesLays == {<<"per", 37>>}
 MC_LinesLays == {<<"per", 0>>, <<"at", 4095>>, <<"at", 4096>>, <<"crlf", 37>>, <<"per", 4097>>}
 MC_None == {}
+MC_AllExtra == {"seek0", "seek1", "getiter", "calliter", "lines", "readline", "readall", "readnum", "flush", "close", "peek"}
 
 GenPrint == Gen => PrintT("GEN " \o ToJson([init |-> init, steps |-> hist', final |-> Final(st')]))
 =============================================================================
